@@ -56,6 +56,11 @@ mod send {
             {
                 waker.wake();
             }
+            if self.sndbuf.is_all_rcvd()
+                && let Some(waker) = self.flush_waker.take()
+            {
+                waker.wake();
+            }
         }
 
         fn may_loss_data(&mut self, crypto_frame: &CryptoFrame) {
